@@ -117,3 +117,10 @@
 #[derive(Logos)] enum BackRefSeven { #[regex(r"(a)(b)(c)(d)(e)(f)(g)\7")] A }
 #[derive(Logos)] enum LookAhead { #[regex("a(?=b)")] A }
 #[derive(Logos)] enum NamedBackRef { #[regex(r"(?P<n>a)\k<n>")] A }
+
+// priority takes a plain unsigned decimal literal: other spellings are rejected, not truncated
+#[derive(Logos)] enum PrioritySeparator { #[token("let", priority = 1_0)] A, #[regex("[a-z]+", priority = 10)] B }
+#[derive(Logos)] enum PriorityHex { #[token("let", priority = 0x10)] A, #[regex("[a-z]+")] B }
+#[derive(Logos)] enum PriorityFloat { #[regex("[a-z]+", priority = 2.5)] A }
+#[derive(Logos)] enum PriorityExponent { #[regex("[a-z]+", priority = 1e3)] A }
+#[derive(Logos)] #[logos(skip("[ ]+", priority = 1_000))] enum PrioritySkipSeparator { #[token("a")] A }
